@@ -222,7 +222,7 @@ fn run_input<const N: usize>(v: u8, w: u8, period2: bool, n: usize) -> [u8; N] {
 
 fn check_lz10_long<const MAXTOK: usize, const MAXLEN: usize, const N: usize>(x: &[u8; N], n: usize, max_len: usize) {
     let out = keep(LZ10CompressionFormat {}.compress(&x[..n])).unwrap();
-    assert!(out.len() >= 4 && out[0] == 0x10 && out[1] as usize == n && out[2] == 0 && out[3] == 0, "C08: LZ10 header");
+    assert!(out.len() >= 4 && out[0] == 0x10 && (out[1] as usize | (out[2] as usize) << 8 | (out[3] as usize) << 16) == n, "C08: LZ10 header (type byte, 24-bit little-endian input length)");
     let p = parse_tokens::<MAXTOK, MAXLEN, N>(&out, 4, n, false);
     assert!(p.ok && p.n == n && p.consumed == out.len(), "C08: LZ10 stream of a long run is not well-formed / has leftover bytes");
     let i: usize = kani::any();
@@ -385,7 +385,7 @@ fn c09_lz13_empty_input() {
 
 fn check_lz13_long<const MAXTOK: usize, const MAXLEN: usize, const N: usize>(x: &[u8; N], n: usize, max_len: usize) {
     let out = keep(LZ13CompressionFormat {}.compress(&x[..n])).unwrap();
-    assert!(out.len() >= 8 && out[0] == 0x13 && out[4] == 0x11 && out[5] as usize == n && out[6] == 0 && out[7] == 0, "C09: LZ13 headers");
+    assert!(out.len() >= 8 && out[0] == 0x13 && out[4] == 0x11 && (out[5] as usize | (out[6] as usize) << 8 | (out[7] as usize) << 16) == n, "C09: LZ13 headers (0x13 wrapper, LZ11 type byte, 24-bit little-endian input length)");
     let p = parse_tokens::<MAXTOK, MAXLEN, N>(&out, 8, n, true);
     assert!(p.ok && p.n == n && p.consumed == out.len(), "C09: LZ11 stream of a long run is not well-formed / has leftover bytes");
     let i: usize = kani::any();
